@@ -140,6 +140,9 @@ pub trait NamingContext {
         if is_reserved_word(&function_name) {
             // `fn delete()` is fine in Rust, `function delete()` is not TypeScript
             format!("{}_", function_name)
+        } else if function_name.starts_with(|c: char| c.is_ascii_digit()) {
+            // `fn _2fa()`: the conversion drops the underscore an identifier cannot start without
+            format!("_{}", function_name)
         } else if function_name.is_empty() {
             // a name made of underscores only has no camelCase form
             name.to_string()
@@ -155,7 +158,13 @@ pub trait NamingContext {
     fn compute_type_name(&self, name: &str, _rename_all: &Option<RenameRule>) -> String {
         // Always use TypeScript conventions (PascalCase for types)
         // Command-level rename_all doesn't affect the type name
-        self.apply_naming_convention(name, RenameRule::PascalCase)
+        let type_name = self.apply_naming_convention(name, RenameRule::PascalCase);
+        if type_name.starts_with(|c: char| c.is_ascii_digit()) {
+            // `fn _2fa()`: `2faParams` is no identifier
+            format!("_{}", type_name)
+        } else {
+            type_name
+        }
     }
 }
 
